@@ -236,6 +236,24 @@ CLAIMED = {
         "edge multiset and that graph dynamics equal grid dynamics is established by correspondence only (exhaustive on the bound), "
         "not yet by a theorem; the Python harness; g++ for the engine build.",
         "DESIGN.md section 6 / C15"),
+    "C16": (
+        "Coq proof that sums over the members of all groups equal sums over the retained cells (volume, amounts), flags are OR-ed, edges have distinct ordered keys, un-coarse-graining preserves group totals + random-map correspondence incl. invalid maps and the identity-map simulation",
+        "Theorems (Props/C16.v, closed under the global context; any grid size, any index map - non-contiguous groups, single-cell groups, "
+        "any set of dropped cells): for any per-cell quantity, the sum over groups of the sums over their members equals the sum over the "
+        "retained cells, so total volume is (#retained) x h^3 and every species' total amount over the groups is its total over the "
+        "retained cells; the code's 'sum of 0/1 flags capped at 1' is the OR over the members; the coarse-grained edge list has no "
+        "duplicate key and every key has its lower index first (no self-loop); spreading value / (number of members) over a non-empty "
+        "group preserves its total. Tied to the code on every run: random reflecting 1-D/2-D/3-D grids with maps built by partitioning "
+        "each environment's cells into random groups and dropping a random fraction (dropped cells of several environments), identity "
+        "maps and six kinds of invalid maps; accepted / raised against the documented validity rules, node volumes and environments, the "
+        "edge list in order with surfaces and squared centroid distances, aggregated state and flags, uncoarsegrain_trajectory_data, and "
+        "simulate(cgmap=identity) against the plain Euler simulation.",
+        "Trusted: Coq kernel + VM; the hand-written model of coarsegrain.py tied by sampled correspondence (400 maps quick, 6000 thorough); "
+        "surface = shared faces x area and distance = centroid distance are established by correspondence against the model's definitions "
+        "(merge of the grid's adjacency list by group pair; mean of member positions), not restated as separate theorems; the identity-map "
+        "equivalence is established by correspondence (Euler; stochastic engines consume their random stream in another channel order on "
+        "a graph, so for them nothing beyond C02/C07 is claimed); square roots avoided by comparing squares; cubic cells.",
+        "DESIGN.md section 6 / C16"),
     "C17": (
         "Coq proof of accessor agreement (row-major block/stride index lemmas) and look-up characterisations + exhaustive small-shape correspondence",
         "Theorems (Props/C17.v, closed under the global context, all N,S,C): the per-sample state accessor, the per-cell trajectory "
